@@ -98,6 +98,18 @@ def neg_cases(tier, seed):
             es = [("gzip", (qtok(g), g)), (other, (qtok(o), o))]
             rng.shuffle(es)
             add(es, rng.choice(STYLES))
+    # the same values again, each preceded by a call with another value of the same length (and usually
+    # the opposite answer): no state may survive from one call to the next
+    by_len = {}
+    for c in cases:
+        if isinstance(c.get("hdr"), str) and c["abs"].get("k") == "list":
+            by_len.setdefault(len(c["hdr"]), []).append(c)
+    pool = [c for c in cases if isinstance(c.get("hdr"), str) and c["abs"].get("k") == "list"]
+    for _ in range(4000):
+        c = rng.choice(pool)
+        other = rng.choice(by_len[len(c["hdr"])])
+        if other["hdr"] != c["hdr"]:
+            cases.append({"id": len(cases) + 1, "hdr": c["hdr"], "abs": c["abs"], "prev": other["hdr"]})
     # every string of up to 4 symbols, read by the TLA+ transcription of the grammar (HdrLex.tla)
     import lexgen
     for s_, a in lexgen.cases("ae", 4):
@@ -209,6 +221,10 @@ def stream_cases(prop, tier, seed, sched_cases=()):
             for cap in (1, 3, 4096):
                 for prog in ([["write", 5], ["flush", 0], ["write", 2 * cap + 1], ["drop", 0]], [["write", 0], ["drop", 0]]):
                     add(cap=cap, prog=prog, ae=hdr, abs=a, level=level, rand_steps=80, rseed=rng.randrange(1 << 30))
+        # a backlog: hundreds of chunks queued before the consumer starts, then polled back to back
+        for cap, n_, tail in ((1, 300, [["drop", 0]]), (1, 200, [["wait", 0], ["write", 3], ["drop", 0]]), (2, 520, [["flush", 0], ["drop", 0]]),
+                              (1, 150, [["wait", 0], ["abort", 0]] if abort else [["wait", 0], ["drop", 0]])):
+            add(cap=cap, prog=[["write", cap]] * (n_ // cap) + tail, rand_steps=0, rseed=rng.randrange(1 << 30), extra=1)
         # seeded random programs of up to 6 (quick) / 40 (thorough) operations
         for _ in range(1500 * k):
             cap = rng.choice(raw_caps)
